@@ -136,7 +136,7 @@ theorem feeder_terminal_eq {c : Feeder.Cfg} {input : List Nat} {k1 k2 : Nat} {s 
 /-- Map with 2 workers over [7, 8, 9]: a complete failure-free schedule ending in a terminal state
     that delivered 8, 7, 9 -/
 example :
-    let c : FanOut.Cfg := { n := 2, hasOut := true, outCap := 0, hasCloser := true, closerCtx := true, onceGo := false, lazy := true }
+    let c : FanOut.Cfg := { n := 2, hasOut := true, outCap := 0, hasCloser := true, closerCtx := true, onceGo := false, lazy := true, workerCancels := true }
     ∃ s, FanOut.run c (FanOut.init c [7, 8, 9] 0 0)
       [.cStart, .wAdvance, .wAdvance, .rRead, .rHandoff, .rRead, .rHandoff, .wHandoff 1, .cStart, .wHandoff 0, .rRead,
        .rHandoff, .cStart, .wHandoff 0, .rEof, .wEof, .wEof, .kCancel, .kClose, .cStart, .cEof] = some s ∧
